@@ -62,7 +62,7 @@ def sweep_cases(ctx):
                 cases.append({'kind': kind, 'limit': limit, 'dur': round(limit*f, 4), 'inner_limit': 0})
     # nested calls: outer limit, inner limit, function duration
     # (the fourth: a generous outer limit around an inner call that must expire on its own, shorter limit)
-    for outer, inner, dur in ((0.1, 0.2, 0.5), (0.3, 0.1, 0.5), (0.3, 0.2, 0.05), (3.0, 0.1, 0.6)):
+    for outer, inner, dur in ((0.1, 0.2, 0.5), (0.3, 0.1, 0.5), (0.3, 0.2, 0.05), (4.0, 0.1, 1.5)):
         cases.append({'kind': 'nested', 'limit': outer, 'dur': dur, 'inner_limit': inner})
     for i, c in enumerate(cases):
         c.update(rkind='sweep', limit_ms=int(c['limit']*1000), dur_ms=int(c['dur']*1000), inner_ms=int(c['inner_limit']*1000))
